@@ -120,7 +120,7 @@ func (r *runner) runHarness(hs harnessSpec) (*harnessResult, error) {
 			hr.Unreproduced = append(hr.Unreproduced, v)
 			continue
 		}
-		c := nativeCase{ID: "cex", Harness: hs.Fn, Params: params, Inputs: pr.Inputs}
+		c := nativeCase{ID: "cex", Harness: hs.Fn, Params: params, Inputs: nativeInputs(pr.Inputs)}
 		v.Human = fmt.Sprintf("%s %s | inputs: %s", pr.Msg, pr.Pos, humanInputs(pr.Inputs))
 		if len(v.Human) > 1200 {
 			v.Human = v.Human[:1200] + "…"
@@ -176,6 +176,9 @@ func (r *runner) runHarness(hs harnessSpec) (*harnessResult, error) {
 	if r.doReplay && len(st.Samples) > 0 {
 		var cases []nativeCase
 		for i, pr := range st.Samples {
+			if hasEnvInput(pr.Inputs) {
+				continue // depends on environment nondeterminism (rand, time): cannot be forced natively
+			}
 			cases = append(cases, nativeCase{ID: fmt.Sprintf("s%d", i), Harness: hs.Fn, Params: params, Inputs: pr.Inputs})
 		}
 		nres, err := r.nativeRun(hs.Pkg, cases, hangMs)
@@ -184,6 +187,9 @@ func (r *runner) runHarness(hs harnessSpec) (*harnessResult, error) {
 		}
 		for i, pr := range st.Samples {
 			id := fmt.Sprintf("s%d", i)
+			if hasEnvInput(pr.Inputs) {
+				continue
+			}
 			nr, ok := nres[id]
 			if !ok {
 				hr.Mismatches = append(hr.Mismatches, fmt.Sprintf("%s: no native result; inputs %s", id, humanInputs(pr.Inputs)))
@@ -212,6 +218,26 @@ func (r *runner) runHarness(hs harnessSpec) (*harnessResult, error) {
 	}
 	hr.Wall = time.Since(start)
 	return hr, nil
+}
+
+// nativeInputs drops environment inputs (rand, time), which the native run draws from the real environment.
+func nativeInputs(ins []interp.Input) []interp.Input {
+	var out []interp.Input
+	for _, i := range ins {
+		if i.Kind != "env" {
+			out = append(out, i)
+		}
+	}
+	return out
+}
+
+func hasEnvInput(ins []interp.Input) bool {
+	for _, i := range ins {
+		if i.Kind == "env" {
+			return true
+		}
+	}
+	return false
 }
 
 func compareNative(pr *interp.PathResult, nr nativeResult) string {
@@ -349,7 +375,8 @@ func (r *runner) nativeRun(relPkg string, cases []nativeCase, hangMs int) (map[s
 	for attempt := 0; len(remaining) > 0 && attempt < len(cases)+2; attempt++ {
 		casePath := filepath.Join(tmp, fmt.Sprintf("cases%d.json", attempt))
 		writeJSON(casePath, map[string]interface{}{"cases": remaining, "timeout_ms": hangMs})
-		cmd := exec.Command("go", "test", "-tags", "verif verifnative", "-overlay", ovPath, "-run", "^TestVerifReplay$", "-count=1", "-v", "-vet=off", "-timeout", "1200s", pp)
+		// the address-space limit turns a runaway allocation of a counterexample into a clean crash of the test binary
+		cmd := exec.Command("sh", "-c", "ulimit -v 24000000; exec go test -tags 'verif verifnative' -overlay "+ovPath+" -run '^TestVerifReplay$' -count=1 -v -vet=off -timeout 1200s "+pp)
 		cmd.Dir = r.repo
 		cmd.Env = append(goEnv(), "VERIF_REPLAY_FILE="+casePath)
 		var stdout, stderr bytes.Buffer
